@@ -2,7 +2,6 @@
 import itertools
 import re
 import warnings
-from fractions import Fraction
 
 from harness import core
 
@@ -46,8 +45,8 @@ def nearest(cands, steps):
     """steps that are nearest to one of the candidate values (ties: both)."""
     out = set()
     for v in cands:
-        best = min(abs(Fraction(s) - v) for s in steps)
-        out |= {s for s in steps if abs(Fraction(s) - v) == best}
+        best = min(abs(s - v) for s in steps)
+        out |= {s for s in steps if abs(s - v) == best}
     return out
 
 
@@ -159,11 +158,10 @@ def expected_rgb(cls, depth):
             out.add(tuple(d * 17 for d in digs))
         return out
     if k == "gdec":
-        exact = Fraction(v * 255, 100)
-        cands = {Fraction(exact.numerator // exact.denominator), Fraction(-((-exact.numerator) // exact.denominator))}
+        cands = {(v * 255) // 100, -((-v * 255) // 100)}      # v% of 255, rounded down and up
         out = {(g, g, g) for g in nearest(cands, grays)}
         if depth == TRUE:
-            out |= {(int(c), int(c), int(c)) for c in cands}
+            out |= {(c, c, c) for c in cands}
         return out
     if k == "ghex":
         out = {(g, g, g) for g in nearest([v], grays)}
@@ -354,7 +352,29 @@ class C18(core.Check):
             return {"malformed": ints[:40]}
 
     # ---------- oracle: written from the property text ----------
+    FLOOD = 3      # messages of one class reported per run (core keeps 200 in all and dedupes by class anyway)
+
     def oracle(self, case, res):
+        msgs = self.judge(case, res)
+        if getattr(self, "_shrinking", False) or not msgs:
+            return msgs
+        seen = self.__dict__.setdefault("_seen", {})
+        out = []
+        for m in msgs:
+            k = self.signature(case, m)
+            seen[k] = seen.get(k, 0) + 1
+            if seen[k] <= self.FLOOD:
+                out.append(m)
+        return out
+
+    def shrink(self, case, msg):
+        self._shrinking = True
+        try:
+            return super().shrink(case, msg)
+        finally:
+            self._shrinking = False
+
+    def judge(self, case, res):
         msgs = []
         fg, bg, depth = case["fg"], case["bg"], case["colors"]
         ref, info = reference(case)
@@ -450,7 +470,16 @@ class C18(core.Check):
         ref, _ = reference(case)
         inc("reference:" + ref)
 
+    @staticmethod
+    def size(case):
+        return (len(case["fg"]) + len(case["bg"]), case["fg"], case["bg"])
+
     def shrink_candidates(self, case):
+        for cand in self.shrink_candidates_all(case):
+            if self.size(cand) < self.size(case):       # strictly decreasing: the shrink loop terminates
+                yield cand
+
+    def shrink_candidates_all(self, case):
         parts = case["fg"].split(",")
         for i in range(len(parts)):
             if len(parts) > 1:
